@@ -12,7 +12,7 @@ _prov_cache: Dict[str, Prov] = {}
 
 
 def prov(repo: Repo, f: FuncInfo) -> Prov:
-    k = f"{id(repo)}:{f.qn}"
+    k = f"{id(repo)}:{f.qn}#{id(f.node)}"
     if k not in _prov_cache:
         _prov_cache[k] = Prov(repo, f)
     return _prov_cache[k]
@@ -114,8 +114,45 @@ def site(f: FuncInfo, node: Optional[ast.AST] = None, what: str = "") -> str:
 
 
 # --------------------------------------------------------------------------- guard valuation helper (E3)
+CONTENT_ADDERS = ("append", "add", "extend", "update", "insert", "setdefault", "appendleft")
+_rd_cache: Dict[int, C.ReachingDefs] = {}
+_pm_cache: Dict[int, dict] = {}
+
+
+def rd_of(f: FuncInfo) -> C.ReachingDefs:
+    k = id(f.node)
+    if k not in _rd_cache:
+        _rd_cache[k] = C.ReachingDefs(C.cfg_of(f.node), f.params)
+    return _rd_cache[k]
+
+
+def parents_of(f: FuncInfo) -> dict:
+    k = id(f.node)
+    if k not in _pm_cache:
+        from .core import parent_map
+        _pm_cache[k] = parent_map(f.node)
+    return _pm_cache[k]
+
+
+def _is_empty_literal(v: ast.AST) -> bool:
+    if isinstance(v, (ast.List, ast.Set, ast.Tuple)) and not v.elts:
+        return True
+    if isinstance(v, ast.Dict) and not v.keys:
+        return True
+    return isinstance(v, ast.Call) and isinstance(v.func, ast.Name) and v.func.id in ("list", "set", "dict", "tuple", "deque") \
+        and not v.args and not v.keywords
+
+
 class Guards:
-    """Reachability of statements of one function under valuations of named boolean atoms."""
+    """Reachability of statements of one function under valuations of named boolean atoms.
+
+    Beyond the tests themselves the valuation is propagated
+      * through local boolean names: a name in a test evaluates to the common value of its reaching definitions that are
+        themselves reachable under the valuation (`ok = x.holds(); if not ok: continue`, `if c: ok = True else: ok = False`);
+      * through emptiness: the body of a `for` over a comprehension / filter whose condition is false, or over a local list that
+        starts empty and whose append / add statements are all unreachable, is not entered;
+    both by a decreasing fixpoint that starts from plain valuation-directed reachability (so every step only removes nodes that
+    are unreachable in an over-approximation)."""
 
     def __init__(self, f: FuncInfo, matcher: Callable[[ast.AST], Optional[str]]):
         self.f = f
@@ -126,16 +163,154 @@ class Guards:
             a = matcher(n)
             if a:
                 self.atoms_seen.add(a.lstrip("!"))
+        self._adders: Optional[Dict[str, List[int]]] = None
 
-    def reach(self, valuation: Dict[str, bool], avoid: Iterable[int] = ()) -> Set[int]:
+    # -- helpers
+    def _content_adders(self) -> Dict[str, List[int]]:
+        if self._adders is None:
+            self._adders = {}
+            g = self.g
+            for n in g.nodes():
+                st = g.stmt[n]
+                h = C.header(st) if st is not None else None
+                if h is None:
+                    continue
+                for nd in ast.walk(h):
+                    if isinstance(nd, ast.Call) and isinstance(nd.func, ast.Attribute) and isinstance(nd.func.value, ast.Name) \
+                            and nd.func.attr in CONTENT_ADDERS:
+                        self._adders.setdefault(nd.func.value.id, []).append(n)
+                if isinstance(st, ast.Assign):
+                    for t in st.targets:
+                        if isinstance(t, ast.Subscript) and isinstance(t.value, ast.Name):
+                            self._adders.setdefault(t.value.id, []).append(n)
+                if isinstance(st, ast.AugAssign) and isinstance(st.target, ast.Name):
+                    self._adders.setdefault(st.target.id, []).append(n)
+        return self._adders
+
+    def _val(self, valuation: Dict[str, bool], seen: Optional[Set[int]]):
+        rd = rd_of(self.f)
+        g = self.g
+        memo: Dict[int, Optional[bool]] = {}
+
+        def node_of(e):
+            return g.node_containing(e)
+
         def val(e):
             a = self.matcher(e)
-            if a is not None and a.lstrip("!") in valuation:
-                v = valuation[a.lstrip("!")]
-                return (not v) if a.startswith("!") else v
+            if a is not None:
+                if a.lstrip("!") in valuation:
+                    v = valuation[a.lstrip("!")]
+                    return (not v) if a.startswith("!") else v
+                return None
+            if isinstance(e, ast.Name) and seen is not None and isinstance(e.ctx, ast.Load):
+                k = id(e)
+                if k in memo:
+                    return memo[k]
+                memo[k] = None
+                n = node_of(e)
+                if n is None:
+                    return None
+                vals = set()
+                for d in rd.defs_reaching(n, e.id):
+                    if d not in seen:
+                        continue
+                    st = g.stmt[d]
+                    if isinstance(st, (ast.Assign, ast.AnnAssign)) and st.value is not None and \
+                            (isinstance(st, ast.AnnAssign) or (len(st.targets) == 1 and isinstance(st.targets[0], ast.Name))):
+                        vals.add(C.eval3(st.value, val))
+                    else:
+                        vals.add(None)
+                out = vals.pop() if len(vals) == 1 else None
+                memo[k] = out
+                return out
             return None
 
-        return C.reach_under(self.g, val, avoid=avoid)
+        return val
+
+    def _empty(self, it: ast.AST, at: int, val, seen: Set[int], depth: int = 0) -> bool:
+        if depth > 4:
+            return False
+        if isinstance(it, (ast.ListComp, ast.SetComp, ast.GeneratorExp, ast.DictComp)):
+            for gen in it.generators:
+                if any(C.eval3(c, val) is False for c in gen.ifs):
+                    return True
+            return self._empty(it.generators[0].iter, at, val, seen, depth + 1)
+        if isinstance(it, ast.Call) and isinstance(it.func, ast.Name):
+            if it.func.id == "filter" and len(it.args) == 2 and isinstance(it.args[0], ast.Lambda):
+                return C.eval3(it.args[0].body, val) is False or self._empty(it.args[1], at, val, seen, depth + 1)
+            if it.func.id in ("list", "set", "sorted", "tuple", "reversed", "enumerate", "iter") and it.args:
+                return self._empty(it.args[0], at, val, seen, depth + 1)
+        if _is_empty_literal(it):
+            return True
+        if isinstance(it, ast.Name):
+            rd = rd_of(self.f)
+            defs = [d for d in rd.defs_reaching(at, it.id) if d in seen]
+            if not defs:
+                return False
+            for d in defs:
+                st = self.g.stmt[d]
+                if not (isinstance(st, (ast.Assign, ast.AnnAssign)) and st.value is not None):
+                    return False
+                v = st.value
+                if isinstance(st, ast.Assign) and isinstance(st.targets[0], (ast.Tuple, ast.List)) and isinstance(v, (ast.Tuple, ast.List)) \
+                        and len(st.targets) == 1 and len(st.targets[0].elts) == len(v.elts):
+                    idx = [i for i, t in enumerate(st.targets[0].elts) if isinstance(t, ast.Name) and t.id == it.id]
+                    if not idx:
+                        return False
+                    v = v.elts[idx[0]]
+                if not self._empty(v, d, val, seen, depth + 1):
+                    return False
+            if any(n in seen for n in self._content_adders().get(it.id, [])):
+                return False
+            return True
+        return False
+
+    def reach(self, valuation: Dict[str, bool], avoid: Iterable[int] = (), start: Optional[int] = None) -> Set[int]:
+        g = self.g
+        avoid = set(avoid)
+        seen = C.reach_under(g, self._val(valuation, None), start=start, avoid=avoid)
+        for _ in range(6):
+            val = self._val(valuation, seen)
+            dead_loops = set()
+            for n in seen:
+                st = g.stmt[n]
+                if g.kind[n] == "loop" and isinstance(st, ast.For) and self._empty(st.iter, n, val, seen):
+                    dead_loops.add(n)
+            new = C.reach_under(g, val, start=start, avoid=avoid, no_iter=dead_loops)
+            if new == seen:
+                break
+            seen = new
+        return seen
+
+    def reaches_expr(self, valuation: Dict[str, bool], expr: ast.AST, avoid: Iterable[int] = (), seen: Optional[Set[int]] = None) -> bool:
+        """is the evaluation of this sub-expression reachable? (statement reachable and not cut off by an enclosing conditional
+        expression / short-circuit operand / comprehension filter that the valuation decides)"""
+        if seen is None:
+            seen = self.reach(valuation, avoid)
+        n = self.g.node_containing(expr)
+        if n is None or n not in seen:
+            return False
+        val = self._val(valuation, seen)
+        pm = parents_of(self.f)
+        cur = expr
+        while cur in pm and not isinstance(cur, ast.stmt):
+            par = pm[cur]
+            if isinstance(par, ast.IfExp) and cur is not par.test:
+                t = C.eval3(par.test, val)
+                if t is not None and (cur is par.body) != t:
+                    return False
+            if isinstance(par, ast.BoolOp):
+                i = next(k for k, v in enumerate(par.values) if v is cur)
+                for prev in par.values[:i]:
+                    pv = C.eval3(prev, val)
+                    if (isinstance(par.op, ast.And) and pv is False) or (isinstance(par.op, ast.Or) and pv is True):
+                        return False
+            if isinstance(par, (ast.ListComp, ast.SetComp, ast.GeneratorExp, ast.DictComp)) and not isinstance(cur, ast.comprehension):
+                for gen in par.generators:
+                    if any(C.eval3(c, val) is False for c in gen.ifs):
+                        return False
+            cur = par
+        return True
 
     def node_of_expr(self, e: ast.AST) -> Optional[int]:
         return self.g.node_containing(e)
@@ -154,3 +329,61 @@ def bool_param_atoms(names: Dict[str, str]) -> Callable[[ast.AST], Optional[str]
 
 def explicit_raises(g: C.CFG) -> List[int]:
     return [n for n in g.nodes() if g.kind[n] == "raise"]
+
+
+def fn(repo: Repo, spec: str, depth: int = 4, also=None) -> FuncInfo:
+    """the function with its private helpers inlined (sa.inline); findings are reported against `spec`"""
+    from .inline import flatten
+    return flatten(repo, repo.func(spec), depth, also)
+
+
+def calls_reaching(repo: Repo, f: FuncInfo, names: Iterable[str], depth: int = 3) -> List[ast.Call]:
+    """calls in f whose callee is one of `names` or a repository function that (transitively, up to `depth`) calls one of them"""
+    names = set(names)
+    memo: Dict[str, bool] = {}
+
+    def reaches(t: FuncInfo, d: int) -> bool:
+        if t.qn in memo:
+            return memo[t.qn]
+        memo[t.qn] = False
+        out = False
+        for c in calls_in(t.node):
+            if callee_name(c) in names:
+                out = True
+                break
+            if d > 0:
+                _cat, tg = repo.resolve_call(t, c)
+                if any(x is not None and reaches(x, d - 1) for _k, x, _c in tg):
+                    out = True
+                    break
+        memo[t.qn] = out
+        return out
+
+    res = []
+    for c in calls_in(f.node):
+        if callee_name(c) in names:
+            res.append(c)
+            continue
+        _cat, tg = repo.resolve_call(f, c)
+        if any(x is not None and x.qn != f.qn and reaches(x, depth - 1) for _k, x, _c in tg):
+            res.append(c)
+    return res
+
+
+def is_param(p: Prov, e: ast.AST, name: str) -> bool:
+    """the expression is (a local alias of) the parameter `name` of the analysed function"""
+    if not (isinstance(e, ast.Name) and isinstance(e.ctx, ast.Load)):
+        return False
+    if e.id == name:
+        try:
+            tr = p.trace(e)
+        except KeyError:
+            return False
+        return bool(tr) and all(x == (f"param:{name}",) for x in tr)
+    if not e.id.split("__i")[0]:
+        return False
+    try:
+        tr = p.trace(e)
+    except KeyError:
+        return False
+    return bool(tr) and all(x == (f"param:{name}",) for x in tr)
